@@ -20,7 +20,9 @@ class InjectedObjectiveFault(RuntimeError):
 # stdlib types, recognised by their message), so that library code that catches *some* exception types around a pooled
 # or serial evaluation (a "graceful fallback") is exercised with exactly those types
 EXC_TYPES = ["TypeError", "AttributeError", "ValueError", "KeyError", "IndexError", "ZeroDivisionError",
-             "PicklingError", "OSError", "ArithmeticError", "AssertionError"]
+             "PicklingError", "OSError", "ArithmeticError", "AssertionError", "StopIteration"]
+# (StopIteration: `next()` on an exhausted data source inside the objective.  Inside a generator Python turns it into
+#  RuntimeError("generator raised StopIteration") with the original as __cause__, which is_injected() follows.)
 
 
 def make_injected(n, exc=None):
@@ -56,6 +58,10 @@ class FaultPlan:
         self.stalled = {f["widx"]: f for f in self.faults if f["kind"] == "stalled_worker"}
         self.crash_at = [f["at_task"] for f in self.faults if f["kind"] == "worker_crash"]
         self.scribble = any(f["kind"] == "objective_scribbles" for f in self.faults)
+        # evaluations of good points take long (a simulation that converges slowly near the optimum): in pooled modes the
+        # best candidate of a batch completes last
+        self.slow_good = any(f["kind"] == "objective_slow_good" for f in self.faults)
+        self.best_seen = None
         self.ndraw = 0
         self.ntask = 0
         self.last_int = None
@@ -150,6 +156,24 @@ class FaultPlan:
             sim.count("fault_fired:objective_raise")
             sim.event("fault", f"objective_raise@{n}")
             raise make_injected(n, getattr(self, "raise_exc", {}).get(n))
+
+    def on_obj_value(self, sim, val, maximise):
+        """Called with the value the objective is about to return."""
+        if not self.slow_good or len(sim.threads) < 2:
+            return
+        try:
+            v = float(sum(val)) if isinstance(val, (list, tuple)) else float(val)
+        except Exception:
+            return
+        if v != v:
+            return
+        v = -v if maximise else v
+        if self.best_seen is None or v < self.best_seen:
+            self.best_seen = v
+            t = sim.cur()
+            if t is not None and not t.is_main:
+                t.slow = 1_000_000
+                sim.count("fault_fired:objective_slow_good")
 
     # ---------------------------------------------------------------- pools
     def on_task_start(self, sim, pool, thread, widx) -> bool:
